@@ -15,7 +15,16 @@ No address translation (`tr = []`).
   exposes_only_file_bytes             whatever data a load of the prefix exposes lies inside
                                       the prefix and equals the complete image there
   prefix_load_safe                    memory safety: C01 instantiated
-  (two-run ladder: see the end of the file)
+  prefix_sound (+ _section, _segment) the composition over the loops, as a two-run simulation:
+                                      if the load of the prefix returns true, the load of the
+                                      complete image returns true with the identical ELF header
+                                      and identical segments (fields, data, members), and every
+                                      section of the prefix run is the zeroed one (only without
+                                      segments) or has the same header fields with data absent or
+                                      the same bytes.  Hypothesis: len < 2^63, no translation.
+Not covered by a theorem (family docstring): section NAMES (a zeroed section gets the string at
+offset 0 of the name table, which is empty only if the table starts with NUL — the one place
+where well-formedness of the image is needed) and the accessor read-outs (separate families).
 -/
 import ElfioVerif.Props.C01
 namespace ElfioVerif.C17
@@ -1162,5 +1171,120 @@ theorem loadAfterHdr_sim (o : Obj) (c : Cls) (enc : Enc) (hdr : Bytes) (isLazy :
     rw [hs.dp] at p2; rw [hs.df] at q2
     obtain ⟨n1, n2⟩ := namesPure_sim c enc hdr img k sf.kind hlen _ _ _ _ l1 l2 p2 q2
     exact ⟨_, loadSegsPhase_sim o c enc hdr isLazy htr img k sf.kind hlen _ _ _ _ n1 n2 rp rf hp hf hok⟩
+
+/-- **prefix_sound**: for EVERY byte string `img` shorter than 2^63 (well-formed or not) and every
+    prefix length `k`: if loading the prefix succeeds (`ok = true`), then loading the complete
+    image succeeds as well, with the identical ELF header, with identical segments (all eight
+    fields, data pointer contents, member lists), and section by section: the prefix run's
+    section is the zeroed one without data (possible only if there are no segments), or it has
+    the same ten header fields and its data is absent or the same bytes. -/
+theorem prefix_sound (o : Obj) (htr : o.trans = []) (img : Bytes) (k : Nat) (kind : StreamKind)
+    (isLazy : Bool) (hlen : img.length < 9223372036854775808) (rp rf : LoadRes)
+    (hp : load o { data := img.take k, kind := kind } isLazy = .ok rp)
+    (hf : load o { data := img, kind := kind } isLazy = .ok rf) (hok : rp.ok = true) :
+    ∃ f, PrefixSound f rp rf := by
+  rw [load_eq] at hp hf
+  dsimp only at hp hf
+  rw [htr] at hp hf
+  have hfailRes : ∀ (o' : Obj) (st : IStream), (Except.ok (failRes o' st) : M LoadRes) = .ok rp → False := by
+    intro o' st h; cases h; exact Bool.noConfusion hok
+  have S0 : Sim img k ({ data := img.take k, kind := kind } : IStream) { data := img, kind := kind } :=
+    ⟨rfl, rfl, rfl, fun h => Bool.noConfusion h⟩
+  obtain ⟨s1, f1, -⟩ := seekRead_sim S0 (trApply [] 0) 16 (by decide)
+  by_cases hg1 : ((({ data := img.take k, kind := kind } : IStream).seekg (trApply [] 0)).read 16).1.gcount = 16
+  · obtain ⟨a1, a2, -, -, -, -, -⟩ := f1 hg1
+    rw [if_neg (by rw [hg1]; decide)] at hp
+    rw [if_neg (by rw [a1]; decide), a2] at hf
+    split at hp
+    · exact (hfailRes _ _ hp).elim
+    · rename_i hmagic
+      rw [if_neg hmagic] at hf
+      split at hp
+      · exact (hfailRes _ _ hp).elim
+      · exact (hfailRes _ _ hp).elim
+      · rename_i c enc hc he
+        rw [hc, he] at hf
+        dsimp only at hf
+        obtain ⟨s2, f2, -⟩ := seekRead_sim s1 (trApply [] 0) (ehdrSize c) (by cases c <;> decide)
+        by_cases hg2 : ((((({ data := img.take k, kind := kind } : IStream).seekg (trApply [] 0)).read 16).1.seekg
+            (trApply [] 0)).read (ehdrSize c)).1.gcount = ehdrSize c
+        · obtain ⟨b1, b2, -, -, -, -, -⟩ := f2 hg2
+          rw [if_neg (by rw [hg2]; simp)] at hp
+          rw [if_neg (by rw [b1]; simp), b2] at hf
+          exact loadAfterHdr_sim _ c enc _ isLazy rfl img k hlen _ _ s2 rp rf hp hf hok
+        · rw [if_pos (by simpa using hg2)] at hp
+          exact (hfailRes _ _ hp).elim
+  · rw [if_pos (by simpa using hg1)] at hp
+    exact (hfailRes _ _ hp).elim
+
+/-- `prefix_sound`, section by section: section `i` of the prefix run is matched by section `i` of
+    the complete run; its header is all-zero or identical, its data pointer null or the same bytes -/
+theorem prefix_sound_section (o : Obj) (htr : o.trans = []) (img : Bytes) (k : Nat) (kind : StreamKind)
+    (isLazy : Bool) (hlen : img.length < 9223372036854775808) (rp rf : LoadRes)
+    (hp : load o { data := img.take k, kind := kind } isLazy = .ok rp)
+    (hf : load o { data := img, kind := kind } isLazy = .ok rf) (hok : rp.ok = true) :
+    rp.obj.secs.length = rf.obj.secs.length ∧
+    ∀ (i : Nat) (bp : SecBuf), rp.obj.secs[i]? = some bp → ∃ bf, rf.obj.secs[i]? = some bf ∧
+      (SecZero bp ∨ SameFields bp bf) ∧ (bp.data = none ∨ bp.data = bf.data) ∧ bp.index = bf.index ∧
+      (rp.obj.segs ≠ [] → SameFields bp bf) := by
+  obtain ⟨f, h⟩ := prefix_sound o htr img k kind isLazy hlen rp rf hp hf hok
+  refine ⟨h.secs.length_eq, ?_⟩
+  intro i bp hi
+  rcases h.secs.getElem? i with ⟨e1, -⟩ | ⟨a, b, e1, e2, hr⟩
+  · rw [e1] at hi; cases hi
+  · rw [e1] at hi; cases hi
+    refine ⟨b, e2, hr.1.sound.1, hr.1.sound.2, hr.2, ?_⟩
+    intro hne
+    have hf0 := h.nofail hne
+    subst hf0
+    exact hr.1.fields_of_not_failed
+
+/-- … and segment by segment: identical (success with `e_phnum > 0` implies the prefix stream never
+    failed) -/
+theorem prefix_sound_segment (o : Obj) (htr : o.trans = []) (img : Bytes) (k : Nat) (kind : StreamKind)
+    (isLazy : Bool) (hlen : img.length < 9223372036854775808) (rp rf : LoadRes)
+    (hp : load o { data := img.take k, kind := kind } isLazy = .ok rp)
+    (hf : load o { data := img, kind := kind } isLazy = .ok rf) (hok : rp.ok = true) :
+    rf.ok = true ∧ rp.obj.hdr = rf.obj.hdr ∧ rp.obj.segs.length = rf.obj.segs.length ∧
+    ∀ (i : Nat) (gp : Seg), rp.obj.segs[i]? = some gp → ∃ gf, rf.obj.segs[i]? = some gf ∧ SegRel gp gf := by
+  obtain ⟨f, h⟩ := prefix_sound o htr img k kind isLazy hlen rp rf hp hf hok
+  refine ⟨h.ok, h.hdr, h.segs.length_eq, ?_⟩
+  intro i gp hi
+  rcases h.segs.getElem? i with ⟨e1, -⟩ | ⟨a, b, e1, e2, hr⟩
+  · rw [e1] at hi; cases hi
+  · rw [e1] at hi; cases hi
+    exact ⟨b, e2, hr⟩
+
+/-! ### non-vacuity -/
+
+/-- a 208-byte ELF64/LSB image: header, two section headers at 64 (null section, string table),
+    the string table `\0.shstrtab\0` at 192 -/
+def img208b : Bytes := [
+   127, 69, 76, 70, 2, 1, 1, 0, 0, 0, 0, 0, 0, 0, 0, 0, 1, 0, 62, 0, 1, 0, 0, 0, 0, 0, 0, 0, 0, 0, 0, 0,
+   0, 0, 0, 0, 0, 0, 0, 0, 64, 0, 0, 0, 0, 0, 0, 0, 0, 0, 0, 0, 64, 0, 56, 0, 0, 0, 64, 0, 2, 0, 1, 0,
+   0, 0, 0, 0, 0, 0, 0, 0, 0, 0, 0, 0, 0, 0, 0, 0, 0, 0, 0, 0, 0, 0, 0, 0, 0, 0, 0, 0, 0, 0, 0, 0,
+   0, 0, 0, 0, 0, 0, 0, 0, 0, 0, 0, 0, 0, 0, 0, 0, 0, 0, 0, 0, 0, 0, 0, 0, 0, 0, 0, 0, 0, 0, 0, 0,
+   1, 0, 0, 0, 3, 0, 0, 0, 0, 0, 0, 0, 0, 0, 0, 0, 0, 0, 0, 0, 0, 0, 0, 0, 192, 0, 0, 0, 0, 0, 0, 0,
+   11, 0, 0, 0, 0, 0, 0, 0, 0, 0, 0, 0, 0, 0, 0, 0, 1, 0, 0, 0, 0, 0, 0, 0, 0, 0, 0, 0, 0, 0, 0, 0,
+   0, 46, 115, 104, 115, 116, 114, 116, 97, 98, 0, 0, 0, 0, 0, 0]
+
+/- prefixes of `img208b` that load (so the hypotheses of `prefix_sound` are satisfiable), and what
+   they yield for [type, size, data resident, name length] of the two sections:
+   k = 150 cuts section header 1 (zeroed section), k = 200 cuts the string table data (same header,
+   no data, no names), k = 205 contains everything that is referenced (identical to the full load) -/
+set_option maxRecDepth 100000 in
+example :
+    [150, 200, 205, 208].map (fun k =>
+      (load {} { data := img208b.take k } false).toOption.map (fun r =>
+        (r.ok, r.obj.secs.map (fun (b : SecBuf) =>
+          [b.stype.toNat, b.size.toNat, if b.data.isSome then 1 else 0, b.name.length])))) =
+    [some (true, [[0, 0, 0, 0], [0, 0, 0, 0]]),
+     some (true, [[0, 0, 0, 0], [3, 11, 0, 0]]),
+     some (true, [[0, 0, 0, 0], [3, 11, 1, 9]]),
+     some (true, [[0, 0, 0, 0], [3, 11, 1, 9]])] := by decide
+
+/- `read_prefix` has instances: reading 64 bytes at 0 from the 150-byte prefix is complete -/
+set_option maxRecDepth 100000 in
+example : ((({ data := img208b.take 150 } : IStream).read 64).1.gcount = 64) := by decide
 
 end ElfioVerif.C17
